@@ -24,6 +24,7 @@ def run(chk):
     x8(chk, prog, depths[0])
     from .. import numrules
     numrules.rule_strict_numbers(chk, prog, "C16.X6")
+    numrules.rule_trailing_after_number(chk, prog, "C16.X8n")
     numrules.rule_literals(chk, prog, None, "C16.X4.strict", "C16.X4.default")
     chk.undecided_clauses += [
         "number tokens are decided by X6 with strtod / strtoll / strtoull taken at their ISO C contracts and digit runs collapsed "
